@@ -13,7 +13,8 @@
               (1 w) -> (ret count)        return value of Remove, WordsCount() after
               (2)   -> (count)
               (3 t) -> (contains exact (filtered runes))   Contains, ExactMatch, Filter
-              (4 w) -> (has)              exact, wildcard-free membership (verif probe) *)
+              (4 w) -> (has)              exact, wildcard-free membership (verif probe)
+              (-8) = the call did not return within 3 s, (-9) = it panicked *)
 From Coq Require Import ZArith List Bool.
 From FV Require Import Lib.Sx C14.Model C14.Spec.
 Import ListNotations.
@@ -86,6 +87,10 @@ Fixpoint prop (d : list (list Z)) (lastrm : option (list Z)) (ops : list hop) (o
   match ops, obs with
   | [], [] => VOk
   | o :: ops', ob :: obs' =>
+      match ob with
+      | SList [SInt (-8)] => VPropFail 10      (* the call did not return *)
+      | SList [SInt (-9)] => VPropFail 11      (* the call panicked *)
+      | _ =>
       match o, ob with
       | HAdd w, SList [SInt cnt] =>
           let d' := dict_add w d in
@@ -125,6 +130,7 @@ Fixpoint prop (d : list (list Z)) (lastrm : option (list Z)) (ops : list hop) (o
           | None => VBad
           end
       | _, _ => VBad
+      end
       end
   | _, _ => VBad
   end.
